@@ -250,6 +250,25 @@ CHECKS['C18'] = ('DESIGN.md#C18',
     'tables. Held on N cases; not a proof.',
     'Trusted: astropy overlap_slices and discretize_model. rel 1e-12.')
 
+CHECKS['C13'] = ('DESIGN.md#C13',
+    'Hypothesis-generated parameters/grids/arrays vs. closed forms: erf '
+    'pixel integrals and lattice sums (PRFs), radial quadrature against '
+    'closed-form encircled flux (PSFs), the input samples (ImagePSF), '
+    'bilinear blends of neighbouring ePSFs under generated evaluation/copy '
+    'histories (GriddedPSFModel)',
+    'Generated-input and history search: every PRF equals the erf pixel '
+    'integral and sums to its flux over the pixel grid for any sub-pixel '
+    'centre and width >= 0.2 px; Gaussian/Moffat/Airy PSFs integrate to the '
+    'closed-form encircled flux, are peaked at and symmetric about '
+    '(x_0, y_0), non-negative, linear in flux and mutually consistent; '
+    'ImagePSF returns flux*data at interior sample points for any '
+    'oversampling/origin and fill_value outside; GriddedPSFModel equals the '
+    'stored ePSF at grid nodes, the bilinear blend inside a cell and the '
+    'clamped blend outside, for shuffled non-uniform rectangular grids and '
+    'independent of prior evaluations/copies. Held on N cases; not a proof.',
+    'Trusted: math.erf, scipy quad / Bessel functions. Known finding F17 '
+    '(rotated narrow GaussianPRF) excluded by signature and counted.')
+
 NOT_APPLICABLE = []
 
 
